@@ -1230,8 +1230,9 @@ def planck_exitance(wave, temp, waveunit='nm', valueunit='wlam'):
         Spectral exitance in ``valueunit``.
 
     """
-    # convert wave to meters
-    wave = wave * Unit(waveunit).to('meter')
+    # convert wave to meters (in floating point: integer wavelengths overflow
+    # in wave**5)
+    wave = np.asarray(wave, dtype=float) * Unit(waveunit).to('meter')
 
     # compute flux in W m^-2 sr^-1 m^-1
     flux = 2*np.pi*H*C**2/(wave**5*(np.exp(H*C/(wave*K*temp))-1))
@@ -1270,8 +1271,9 @@ def planck_radiance(wave, temp, waveunit='nm', valueunit='wlam'):
         Spectral radiance in ``valueunit sr^-1``.
 
     """
-    # convert wave to meters
-    wave = wave * Unit(waveunit).to('meter')
+    # convert wave to meters (in floating point: integer wavelengths overflow
+    # in wave**5)
+    wave = np.asarray(wave, dtype=float) * Unit(waveunit).to('meter')
 
     # compute flux in W m^-2 m^-1
     flux = 2*H*C**2/(wave**5*(np.exp(H*C/(wave*K*temp))-1))
